@@ -10,6 +10,8 @@ PROPS = {
     "C05": (["proto"], 48, 600, 40, lambda st: False, "a rejected call"),
     "C06": (["mixed", "reorg"], 48, 600, 45, lambda st: st.get("op") in ("tx", "transact"), "a transaction"),
     "C07": (["ledger"], 48, 600, 45, lambda st: st.get("via") in ("deposit", "withdraw") or (isinstance(st.get("lc"), dict) and st["lc"].get("fn") != "none"), "a ledger operation"),
+    "C10": (["reads"], 48, 600, 45, lambda st: st.get("op") in ("ethcall", "estimate", "callmany"), "a read request"),
+    "C17": (["reads"], 48, 600, 45, lambda st: st.get("op") == "ethcall", "an eth_call"),
     "C08": (["pool"], 64, 800, 45, lambda st: st.get("op") == "transact", "a signed transaction"),
 }
 
